@@ -72,13 +72,13 @@ CHECKS["C08"] = dict(
 
 CHECKS["C18"] = dict(
     category="fault_enumeration",
-    technique="TLA+ model of the build as steps with Fail actions (Build.tla, TLC: AnswersCorrect, RecoversAfterRemoval) + systematic fault injection on the real code at every hook point and executed library line + natural fault sources, probes judged by the Doc resolution rule (Trace_Resolve C18Clause)",
-    text="Every way the property names for a build to fail is enumerated on the real code: an invalid method (four kinds) at every registration position, a user hook raising on its n-th invocation, and an injected exception at every guarded hook point and at sampled (quick) / every (thorough) executed source line of the library, during first build, rebuild after a change and cache-miss resolution. After each fault three probe calls, the removal of the offender and three more probes are judged by TLC against the documented resolution rule: configuration error or the answer over the complete registered set, never a partial table. Build.tla states the same as a step machine; its pinned configuration reproduces the original defect as a TLC counter-example, the repaired one is verified.",
+    technique="TLA+ model of the build as steps with Fail actions (Build.tla, TLC: AnswersCorrect, RecoversAfterRemoval) + systematic fault injection on the real code at every hook point and executed library line + natural fault sources, probes judged by the Doc resolution rule (Trace_Resolve C18Clause) + TLC trace validation (Trace_Build.tla) of build-event traces recorded from the real code, with and without faults, against Build.tla",
+    text="Every way the property names for a build to fail is enumerated on the real code: an invalid method (four kinds) at every registration position, a user hook raising on its n-th invocation, and an injected exception at every guarded hook point and at sampled (quick) / every (thorough) executed source line of the library, during first build, rebuild after a change and cache-miss resolution. After each fault three probe calls, the removal of the offender and three more probes are judged by TLC against the documented resolution rule: configuration error or the answer over the complete registered set, never a partial table. Build.tla states the same as a step machine; its pinned configuration reproduces the original defect as a TLC counter-example, the repaired one is verified (one thread, and two threads with faults). The model is bound to the code by trace validation: the hook events of real builds (lock held, new table, entry point generated, each registration, swap, built flag, call results), recorded with a fault injected at each of the builder's hooks while a second thread races it, are checked by TLC to be behaviours of Build.tla; an unexplained event is reported as SPEC-DRIFT.",
     note="Trusts: interrupt granularity = executed source line (trace function raising); configuration error = exception raised out of the build or the injected fault; the failing action itself is not judged, only what follows.",
     ref="5 C18")
 CHECKS["C19"] = dict(
-    technique="TLA+ model of concurrent builds (Build.tla with threads, TLC: EachAsAlone, FinalStateCorrect, all interleavings) + cooperative scheduler over real threads exploring single / double / targeted triple pre-emption schedules at hook and source-line granularity, results judged by the Doc resolution rule (Trace_Resolve C19Clause)",
-    text="Real threading threads are serialised by a cooperative scheduler whose scheduling points are the guarded hook points or every executed library line; schedules are enumerated systematically (every single pre-emption at hook level; sampled or all at line level; A-to-a / B-to-b / A-resumes pairs; the late-rebuild pattern that catches a missing double check) over racing first calls, racing cache misses for equal and different argument types and racing call_next chains. Each thread's outcome and three later probes must be what the call returns alone. Build.tla explores all interleavings of the model; its pinned configuration reproduces the original race.",
+    technique="TLA+ model of concurrent builds (Build.tla with threads, TLC: EachAsAlone, FinalStateCorrect, all interleavings) + cooperative scheduler over real threads exploring single / double / targeted triple pre-emption schedules at hook and source-line granularity, results judged by the Doc resolution rule (Trace_Resolve C19Clause) + TLC trace validation (Trace_Build.tla) of the hook-event traces of those schedules against Build.tla",
+    text="Real threading threads are serialised by a cooperative scheduler whose scheduling points are the guarded hook points or every executed library line; schedules are enumerated systematically (every single pre-emption at hook level; sampled or all at line level; A-to-a / B-to-b / A-resumes pairs; the late-rebuild pattern that catches a missing double check) over racing first calls, racing cache misses for equal and different argument types and racing call_next chains. Each thread's outcome and three later probes must be what the call returns alone. Build.tla explores all interleavings of the model; its pinned configuration reproduces the original race. Trace validation binds the model to the code: the build events of every hook-level schedule (and sampled line-level ones) are checked by TLC to be behaviours of Build.tla, unlogged steps (lock acquisition / release, dispatch) being composed with the logged ones; removing the double check of the built flag makes 236 of 357 recorded traces unexplainable.",
     note="Trusts: line-granular pre-emption (no intra-line bytecode races); the scheduler treats a thread that makes no progress for 40 ms as blocked on a lock. Concurrent registration while calling is out of scope (the statement says 'fully defined').",
     ref="5 C19")
 
